@@ -8,5 +8,7 @@ CONSTANTS
   InitBank = "0"
   MaxLen = 0
   Defects = {}
+  Foreign = {}
+  BankAmts = {}
 INVARIANT Report
 CHECK_DEADLOCK FALSE
